@@ -66,6 +66,8 @@ func main() {
 		fmt.Println(string(b))
 	case "anchors":
 		os.Exit(cmdAnchors(os.Args[2:]))
+	case "ctx":
+		os.Exit(cmdCtx(os.Args[2:]))
 	case "writers":
 		os.Exit(cmdWriters(os.Args[2:]))
 	case "paths":
@@ -437,7 +439,12 @@ func cmdAnchors(args []string) int {
 	sort.Strings(keys)
 	fmt.Println("// Code generated by `resverif anchors`; DO NOT EDIT.\n\npackage main\n\n// anchorFieldTypes: field anchors used by the rules and the type each had on the tree the rules were written for.\nvar anchorFieldTypes = map[string]string{")
 	for _, k := range keys {
-		fmt.Printf("\t%q: %q,\n", k, prog.fieldSeen[k])
+		fmt.Printf("\t%q: %q,\n", k, strings.SplitN(prog.fieldSeen[k], "|", 2)[0])
+	}
+	fmt.Println("}")
+	fmt.Println("\n// anchorFieldShapes: the same types with the repository's own type names erased.\nvar anchorFieldShapes = map[string]string{")
+	for _, k := range keys {
+		fmt.Printf("\t%q: %q,\n", k, strings.SplitN(prog.fieldSeen[k], "|", 2)[1])
 	}
 	fmt.Println("}")
 	return 0
